@@ -7,20 +7,26 @@ import tempfile
 from harness import core
 
 _tmp = None
+os.environ.setdefault("VERIF_CHECK_PID", str(os.getpid()))     # set in the check's main process, inherited by its workers
 
 
 def workdir():
     """A private scratch directory per worker process, under /verif/build."""
     global _tmp
     if _tmp is None or not os.path.isdir(_tmp):
-        base = os.path.join(core.BUILD, "work")
+        base = _base()
         os.makedirs(base, exist_ok=True)
         _tmp = tempfile.mkdtemp(prefix="w%d_" % os.getpid(), dir=base)
     return _tmp
 
 
+def _base():
+    """build/work/<pid of the check's main process>: concurrent checks never share or clean each other's scratch files"""
+    return os.path.join(core.BUILD, "work", os.environ.setdefault("VERIF_CHECK_PID", str(os.getpid())))
+
+
 def clean_workdirs():
-    shutil.rmtree(os.path.join(core.BUILD, "work"), ignore_errors=True)
+    shutil.rmtree(_base(), ignore_errors=True)
 
 
 def pmap(func, items, procs=None, chunk=8):
